@@ -9,6 +9,8 @@ pub mod c13;
 pub mod c14;
 pub mod c15;
 pub mod c16;
+pub mod c17;
+pub mod c18;
 pub mod families;
 
 use crate::util::Report;
@@ -32,6 +34,8 @@ pub fn run(id: &str, tier: &str, seed: u64) -> i32 {
         "C14" => c14::run(&mut r),
         "C15" => c15::run(&mut r),
         "C16" => c16::run(&mut r),
+        "C17" => c17::run(&mut r),
+        "C18" => c18::run(&mut r),
         _ => {
             println!("unknown property id {id}");
             return 2;
